@@ -110,9 +110,11 @@ var fsReadCallees = map[string]bool{
 }
 
 // Allowed file-system reads are recognised by ROLE, not by the name of the function they stand in:
-//   listing  os.ReadDir(<path from the function's parameters>)
-//   input    os.ReadFile(<path from the function's parameters>) whose bytes are handed, in the same
-//            function, to a document parser (OpenAPI loader, yaml / json Unmarshal)
+//
+//	listing  os.ReadDir(<path from the function's parameters>)
+//	input    os.ReadFile(<path from the function's parameters>) whose bytes are handed, in the same
+//	         function, to a document parser (OpenAPI loader, yaml / json Unmarshal)
+//
 // Anything else (Stat, Open, a read whose bytes steer the generation without being parsed as the
 // spec or the config) makes the output depend on other file-system state.
 var fsParseSinks = []string{"LoadSwaggerFromData", "LoadSwaggerFromDataWithPath", "yaml.Unmarshal", "yaml.v2.Unmarshal", "yaml.v3.Unmarshal", "encoding/json.Unmarshal", "yaml.UnmarshalStrict"}
